@@ -144,8 +144,9 @@ var checks = []Check{
 	},
 	{
 		ID: "C15", Title: "Events run their handlers in order, isolated, on shared globals", Level: "model_checking",
-		Units: []Unit{evalUnit([]string{"evaluator/common.go", "evaluator/c15.go"},
-			Harness{Fn: "ZZC15Events", Quick: p("E", 2, "H", 2), Thorough: p("E", 3, "H", 3), Expect: []string{"events-ok", "witness:end"}},
+		Units: []Unit{evalUnit([]string{"evaluator/common.go", "evaluator/gen.go", "evaluator/c15.go"},
+			Harness{Fn: "ZZC15Events", Quick: p("E", 2, "H", 1), Thorough: p("E", 3, "H", 2), ThoroughBudget: 25 * time.Minute, Expect: []string{"events-ok", "witness:end"}},
+			Harness{Fn: "ZZC15Scopes", Quick: p("NE", 2, "SD", 2, "SL", 2), Thorough: p("NE", 3, "SD", 2, "SL", 2), Expect: []string{"scopes-ok", "witness:end"}},
 		)},
 		Assumptions: []string{"numeric payloads are unconstrained float64, string payloads from a 4-string alphabet incl. empty and non-ASCII", "handlers are delivered only events whose name has a handler (HandleEvent panics otherwise by contract, as pkg/wasm guards)"},
 		Outside:     []string{"event sequences longer than E; more than H handlers per program; pkg/wasm event decoding"},
